@@ -373,6 +373,12 @@ func onePipe(o *opts, r *rng, s *summary, i int, pl *pipeline, distinct map[stri
 			}
 			version++
 			nr := st.rec(fmt.Sprintf(" # v%d", version))
+			if r.chance(1, 3) {
+				// a change of white space only, inside the command (where it may matter to sh)
+				nr = st.rec("")
+				nr.Cmd = strings.Replace(nr.Cmd, " && ", " &&"+strings.Repeat(" ", 2+version%3), 1)
+				s.count("edit:definition-whitespace-only")
+			}
 			nr.Cs = cur.Cs
 			for j := range nr.In {
 				for _, a := range cur.In {
@@ -543,6 +549,11 @@ func onePipe(o *opts, r *rng, s *summary, i int, pl *pipeline, distinct map[stri
 		target := pl.stages[len(pl.stages)-1]
 		t, w = p.do(Cmd{Kind: "commit", Targets: []string{target.file}, Copy: r.chance(1, 3)}, sems, want(11, 1, 27, 13), nil, nil)
 		add(t, "commit of the last stage after the final run")
+		if t.OK {
+			// right after a successful commit everything in its scope is reported up to date
+			t, w = p.do(Cmd{Kind: "status", Targets: []string{target.file}}, sems, want(2, 6, 15, 13), nil, nil)
+			add(t, "status of the last stage right after its commit")
+		}
 		if t.OK {
 			for _, st := range pl.stages {
 				if !st.skip {
